@@ -70,7 +70,17 @@ impl SimCfg {
             _ => rng.random_range(2..=5),
         };
         let (cluster_of, cluster_ids) = if profile == Profile::TwoClusters {
-            const IDS: [(&str, &str); 15] = [
+            const IDS: [(&str, &str); 23] = [
+                // an id and what a well-meant transformation of it looks like (escaping for logs, URL encoding, Unicode
+                // normalisation): still two different ids
+                ("team\tblue", "team\\tblue"),
+                ("say \"hi\"", "say \\\"hi\\\""),
+                ("back\\slash", "back\\\\slash"),
+                ("nul\u{0}", "nul\\0"),
+                ("line\n", "line\\n"),
+                ("é", "e\u{301}"),
+                ("a b", "a%20b"),
+                ("tab\t", "tab\\u{9}"),
                 ("", "a"),
                 ("a", "A"),
                 ("a", "ab"),
